@@ -185,8 +185,11 @@ def _replay(rec):
     if fid(root.find("a", classes=[])) != list(rec["finde"]):
         bad.append(f"find('a', classes=[]): expected {rec['finde']}, observed {fid(root.find('a', classes=[]))}")
     # find() on an element (the first <a>, or the root), the four combinations of include_self x recurse
-    e0 = order[rec["firsta"]] if rec["firsta"] else root
-    for j, (incl, rc_) in enumerate(((True, True), (True, False), (False, True), (False, False))):
+    try:
+        e0 = order[rec["firsta"]] if rec["firsta"] else root
+    except IndexError:      # (the tree has fewer elements than the model's: reported above as differing elements)
+        e0 = None
+    for j, (incl, rc_) in enumerate(((True, True), (True, False), (False, True), (False, False)) if e0 is not None else ()):
         got_ = fid(e0.find("a", include_self=incl, recurse=rc_))
         if got_ != list(rec["findon"][j]):
             bad.append(f"find('a', include_self={incl}, recurse={rc_}) on element {rec['firsta']}: expected {list(rec['findon'][j])}, observed {got_}")
